@@ -487,8 +487,8 @@ def run_demo_case(rng, tmp, idx):
                         top.temporaryDirectory()
                     else:
                         top.loadBlob(p64(rng.choice(base_oids)), tid_of(1))
-                except POSException.POSKeyError:
-                    pass
+                except Exception:
+                    pass              # no such blob / a layer below without blob support
                 log.append('blob-op')
             if r < 0.5:
                 # propose collisions: ids in either layer, ids already issued, then whatever the seeded generator says
@@ -895,7 +895,7 @@ def probe_blobify_keeps_issued(tmp):
         elif how == 'loadBlob':
             try:
                 demo.loadBlob(p64(1), tid_of(1))
-            except POSException.POSKeyError:
+            except Exception:
                 pass
         else:
             import ZODB.blob
